@@ -61,7 +61,7 @@ Mode(kind) == CASE kind \in {"fold"} -> "keyed-bag"
 Expected(r) ==
   LET src == IF Len(r.srcs) > 0 THEN r.srcs[1] ELSE <<>> IN
   CASE r.kind \in {"multi", "execmulti", "merge"} -> ConcatAll(r.srcs)
-    [] r.kind \in {"frame", "decoding", "prefixed", "writerfunc", "taskbuffer", "sort", "scanner", "scanv"} -> src
+    [] r.kind \in {"frame", "decoding", "prefixed", "writerfunc", "taskbuffer", "sort", "scanner", "scanv", "scanner_arity", "scanner_type"} -> src
     [] r.kind = "map" -> [j \in DOMAIN src |-> MapF(src[j])]
     [] r.kind = "filter" -> SelectSeq(src, FilterP)
     [] r.kind = "flatmap" -> FlatAll(src)
@@ -105,7 +105,7 @@ ReadStep ==
          nOK == rd.n >= 0 /\ rd.n <= rd.k
          n == IF nOK THEN rd.n ELSE 0
          \* on a (non-EOF) error return the destination is unspecified: the caller must drop it
-         tailOK == rd.err \notin {"", "EOF"} \/ \A j \in (n + 1)..rd.k : SentinelRow(r, rd.dst[j], j)
+         tailOK == rd.err \notin {"", "EOF"} \/ \A j \in (n + 1)..Len(rd.dst) : SentinelRow(r, rd.dst[j], j)
          errOK == \/ rd.err \in {"", "EOF"} \/ (rd.err = "boom" /\ r.errat > 0)
                   \/ (rd.err = "typeerr" /\ r.kind \in {"scanner_arity", "scanner_type"})
          stickyOK == ended = "" \/ (rd.n = 0 /\ rd.err = ended)
@@ -133,7 +133,8 @@ EndSession ==
               ELSE
                 (IF r.kind \in {"scanner_arity", "scanner_type"} THEN
                     \* a destination of the wrong arity or type is rejected with an error, nothing delivered
-                    (IF ended = "typeerr" /\ delivered = <<>> THEN <<>> ELSE <<Fail(r, "ScannerRejectsBadDestination", i)>>)
+                    \* (whenever it is offered: after r.param well-formed calls, which delivered the first rows)
+                    (IF ended = "typeerr" /\ delivered = SubSeq(Expected(r), 1, r.param) THEN <<>> ELSE <<Fail(r, "ScannerRejectsBadDestination", i)>>)
                  ELSE IF ended = "EOF" THEN
                     (IF Matches(r, delivered) THEN <<>> ELSE <<Fail(r, "RowsMatchMeaning", i)>>)
                  ELSE IF ended = "boom" /\ r.errat > 0 THEN
